@@ -165,6 +165,22 @@ var keyVals = []string{"k", "a/b", "ключ/☃/\U0001F600", strings.Repeat("01
 	// ESC), DEL, the line separators, a non-printable rune beyond the BMP, and the characters
 	// HTML-safe encoders escape
 	"bel\a/vt\v/soh\x01/nul\x00/esc\x1b[0m/del\x7f/ls\u2028\u2029/tag\U000E0001/<>&\"\\/\t\n\r\b\f"}
+const sentinelType, sentinelTx = "sentinel-type", "sentinel-tx"
+
+func typeOf(m *state.ChangeMessage) string {
+	if m == nil {
+		return ""
+	}
+	return m.Type
+}
+
+func txOf(m *state.ChangeMessage) string {
+	if m == nil {
+		return ""
+	}
+	return m.Headers.TxID
+}
+
 // txID has the same kinds of characters as the last key
 const txID = "tx-✓-1\a\x7f\x00\U000E0001<&>"
 
@@ -392,11 +408,23 @@ func (x vc[T]) runChange(e *env, cfg caseCfg) (out []finding) {
 		}
 	}()
 	key := keyVals[cfg.Key]
-	opts := buildOpts(cfg.Opts, cfg.Rev)
+	// the options are passed as the front part of a longer slice of the caller's (spare
+	// capacity behind them, holding two more options): what lies behind the part that was
+	// passed stays the caller's
+	l := buildOpts(cfg.Opts, cfg.Rev)
+	backing := make([]state.ChangeOption, len(l)+2)
+	copy(backing, l)
+	backing[len(l)] = state.WithEntityType(sentinelType)
+	backing[len(l)+1] = state.WithTxID(sentinelTx)
+	opts := backing[:len(l)]
 	msg, err := x.construct(cfg.Ctor, key, opts)
 	if err != nil || msg == nil {
 		bad("constructor failed", vfacet, "%s returned (%v, %v) for an encodable value", ctorNames[cfg.Ctor], msg, err)
 		return
+	}
+	if probe, perr := state.Insert(key, x.v, backing[len(l):]...); perr != nil || probe.Type != sentinelType || probe.Headers.TxID != sentinelTx {
+		bad("caller's option slice modified", "", "%s was given the first %d of %d options of the caller's slice; a message built afterwards from the remaining two has type %q txid %q (err %v), want %q and %q",
+			ctorNames[cfg.Ctor], len(l), len(l)+2, typeOf(probe), txOf(probe), perr, sentinelType, sentinelTx)
 	}
 	wantType := refEntityType[T]()
 	if cfg.Opts&oType != 0 {
@@ -911,8 +939,27 @@ func applyBad(f *fixture, data []byte) (out []finding, rebuilt bool) {
 			fmt.Sprintf("Apply returned %q\nbefore: %s\nafter:  %s", err, f.snap, after)})
 		return out, true
 	}
+	// "without damage" includes the materializer itself: the next valid message is applied as
+	// if the rejected one had never been seen (an update of U "k" to the value it has, at the
+	// offset the materializer stands at: accepted, and nothing changes)
+	var err2 error
+	func() {
+		defer func() {
+			if r := recover(); r != nil {
+				err2 = fmt.Errorf("panic: %v", r)
+			}
+		}()
+		err2 = f.mat.Apply(&eventbus.StoredEvent{Offset: "00000000000000000003", Type: "state.ChangeMessage", Data: probeAfterBad, Timestamp: fixedTime})
+	}()
+	if err2 != nil || f.dump() != f.snap {
+		out = append(out, finding{"after a rejected input the next valid message is not applied normally", "error=" + errClass(err),
+			fmt.Sprintf("the input was rejected with %q; the valid update applied next returned %v\nbefore: %s\nafter:  %s", err, err2, f.snap, f.dump())})
+		return out, true
+	}
 	return nil, false
 }
+
+var probeAfterBad = mustJSON(state.Update("k", fixU1, uOpt()))
 
 // ---------------------------------------------------------------- enumeration
 
